@@ -49,6 +49,8 @@ type unit struct {
 type world struct {
 	reps []*rep
 	log  []unit
+	svc  bool // service level: post-states are reported by spostFn
+	spostFn func(i int, o J)
 }
 
 func newRep(typ string, create bool, idx int) *rep {
